@@ -207,10 +207,25 @@ func vrBuildWorld(u *vrUniverse) (*vrWorld, error) {
 			mb = wire.NewMsgBlock(&hdr)
 			_ = mb.AddTransaction(cb)
 			mr := fmt.Sprintf("mr-%d", b)
+			// Every block also carries a transaction nobody watches with
+			// one input of every input class (see vrInputClasses): in
+			// front of the universe's transactions in odd blocks, behind
+			// them in even ones.
+			xtx, xprevs := w.classTx(b)
+			if b%2 == 1 {
+				_ = mb.AddTransaction(xtx)
+				prevs = append(prevs, xprevs...)
+				mr += "-" + xtx.TxHash().String()
+			}
 			for _, t := range u.BlockTxs[b] {
 				_ = mb.AddTransaction(w.txs[t])
 				prevs = append(prevs, prevScripts[t]...)
 				mr += "-" + w.txs[t].TxHash().String()
+			}
+			if b%2 == 0 {
+				_ = mb.AddTransaction(xtx)
+				prevs = append(prevs, xprevs...)
+				mr += "-" + xtx.TxHash().String()
 			}
 			mb.Header.MerkleRoot = vrHash(mr)
 		}
@@ -228,6 +243,139 @@ func vrBuildWorld(u *vrUniverse) (*vrWorld, error) {
 	// strictly between the timestamps of heights StartT-1 and StartT
 	w.start = gen.Header.Timestamp.Add(time.Duration(u.StartT)*10*time.Minute - 5*time.Minute)
 	return w, nil
+}
+
+// ---- input classes ----------------------------------------------------------
+//
+// rescan.go extractBlockMatches runs VerifyBasicBlockFilter on every block it
+// fetches.  Besides the output scripts that function derives, for every input
+// with a witness, the script of the spent output (txscript.ComputePkScript:
+// signature script => P2SH of its last push; 2-item witness with a 33-byte
+// last item => P2WPKH; EVERY other witness => P2WSH of the last item) and
+// looks it up in the filter.  That is the spent script only for nested /
+// P2WPKH / P2WSH spends; for taproot and other shapes it is a script that was
+// never in a block.  The world creates the spent outputs itself, so it knows
+// their scripts; the filter the chain source serves is the TRUE BIP158 filter
+// built from them.  (Same classes as the CFSync family's vfCFInputClasses.)
+
+type vrIn struct {
+	class   string
+	sig     []byte
+	witness wire.TxWitness
+	prev    []byte // script of the spent output
+}
+
+func vrBytes(n int, tag string, id int) []byte {
+	out := make([]byte, 0, n+32)
+	for i := 0; len(out) < n; i++ {
+		h := sha256.Sum256([]byte(fmt.Sprintf("vr-%s-%d-%d", tag, id, i)))
+		out = append(out, h[:]...)
+	}
+	return out[:n]
+}
+
+func vrPush(d []byte) []byte {
+	if len(d) <= 75 {
+		return append([]byte{byte(len(d))}, d...)
+	}
+	return append([]byte{0x4c, byte(len(d))}, d...)
+}
+
+func vrCat(parts ...[]byte) []byte {
+	var out []byte
+	for _, p := range parts {
+		out = append(out, p...)
+	}
+	return out
+}
+
+func vrSha(d []byte) []byte { h := sha256.Sum256(d); return h[:] }
+
+func vrP2SH(redeem []byte) []byte {
+	return vrCat([]byte{0xa9, 0x14}, address.Hash160(redeem), []byte{0x87})
+}
+
+// vrInputClasses returns one input of every class, derived from id.
+func vrInputClasses(id int) []vrIn {
+	pub := func(t string) []byte { return append([]byte{0x02}, vrBytes(32, "pub"+t, id)...) }
+	sig := func(t string) []byte { // DER-shaped signature + SIGHASH_ALL, 71 bytes
+		return vrCat([]byte{0x30, 0x44, 0x02, 0x20}, vrBytes(32, "r"+t, id),
+			[]byte{0x02, 0x20}, vrBytes(32, "s"+t, id), []byte{0x01})
+	}
+	tr := func(t string) []byte { return append([]byte{0x51, 0x20}, vrBytes(32, "tr"+t, id)...) }
+	ctrl := func(t string, depth int) []byte {
+		return vrCat([]byte{0xc0}, vrBytes(32, "ik"+t, id), vrBytes(32*depth, "path"+t, id))
+	}
+	annex := append([]byte{0x50}, vrBytes(9, "annex", id)...)
+	multisig := func(t string) []byte { return vrCat([]byte{0x51, 0x21}, pub(t), []byte{0x51, 0xae}) }
+	leaf := func(t string) []byte { return vrCat([]byte{0x20}, vrBytes(32, "xonly"+t, id), []byte{0xac}) }
+	// a 33-byte witness script: OP_DROP <31 bytes>
+	ws33 := vrCat([]byte{0x75, 0x1f}, vrBytes(31, "ws33", id))
+
+	wpkh := vrCat([]byte{0x00, 0x14}, address.Hash160(pub("d")))
+	wsE, wsG := multisig("e"), multisig("g")
+	wshE := vrCat([]byte{0x00, 0x20}, vrSha(wsE))
+	return []vrIn{
+		{class: "p2pk", sig: vrPush(sig("a")), prev: vrCat(vrPush(pub("a")), []byte{0xac})},
+		{class: "p2pkh", sig: vrCat(vrPush(sig("b")), vrPush(pub("b"))),
+			prev: vrCat([]byte{0x76, 0xa9, 0x14}, address.Hash160(pub("b")), []byte{0x88, 0xac})},
+		{class: "p2sh", sig: vrCat([]byte{0x00}, vrPush(sig("c")), vrPush(multisig("c"))),
+			prev: vrP2SH(multisig("c"))},
+		{class: "np2wpkh", sig: vrPush(wpkh), witness: wire.TxWitness{sig("d"), pub("d")},
+			prev: vrP2SH(wpkh)},
+		{class: "np2wsh", sig: vrPush(wshE), witness: wire.TxWitness{nil, sig("e"), wsE},
+			prev: vrP2SH(wshE)},
+		{class: "p2wpkh", witness: wire.TxWitness{sig("f"), pub("f")},
+			prev: vrCat([]byte{0x00, 0x14}, address.Hash160(pub("f")))},
+		{class: "p2wsh", witness: wire.TxWitness{nil, sig("g"), wsG},
+			prev: vrCat([]byte{0x00, 0x20}, vrSha(wsG))},
+		// a P2WSH spend whose witness has two items, the last 33 bytes long
+		{class: "p2wsh33", witness: wire.TxWitness{sig("h"), ws33},
+			prev: vrCat([]byte{0x00, 0x20}, vrSha(ws33))},
+		// taproot key path: one signature of 64 bytes / 65 bytes (explicit
+		// sighash type) / followed by an annex
+		{class: "p2tr-key64", witness: wire.TxWitness{vrBytes(64, "schnorr-i", id)}, prev: tr("i")},
+		{class: "p2tr-key65", witness: wire.TxWitness{append(vrBytes(64, "schnorr-j", id), 0x83)}, prev: tr("j")},
+		{class: "p2tr-key-annex", witness: wire.TxWitness{vrBytes(64, "schnorr-k", id), annex}, prev: tr("k")},
+		// taproot script path: ... script, control block [, annex]
+		{class: "p2tr-script", witness: wire.TxWitness{vrBytes(64, "schnorr-l", id), leaf("l"), ctrl("l", 1)}, prev: tr("l")},
+		{class: "p2tr-script-depth0", witness: wire.TxWitness{[]byte{0x51}, ctrl("m", 0)}, prev: tr("m")},
+		{class: "p2tr-script-annex", witness: wire.TxWitness{vrBytes(64, "schnorr-n", id), leaf("n"), ctrl("n", 2), annex}, prev: tr("n")},
+		// neither a signature script nor a witness (anyone-can-spend output)
+		{class: "bare-empty", prev: []byte{0x51}},
+		// an output of a witness version that has no rules yet
+		{class: "witness-v2", witness: wire.TxWitness{vrBytes(40, "v2", id)},
+			prev: append([]byte{0x52, 0x20}, vrBytes(32, "v2prog", id)...)},
+		// bare multisig, and a non-standard pair whose signature script is not push-only
+		{class: "bare-multisig", sig: vrCat([]byte{0x00}, vrPush(sig("s"))), prev: multisig("s")},
+		{class: "nonstd", sig: []byte{0x51, 0x76}, prev: []byte{0x87, byte(id)}},
+	}
+}
+
+// classTx is the transaction of block b that nobody watches: one input of
+// every input class (outpoints that exist in no block of the universe, so no
+// watched outpoint), outputs P2TR / P2WSH / P2PKH / OP_RETURN to scripts no
+// address id maps to.  Returned with it: the scripts it spends, in input
+// order.  It is not in w.txID - were it ever delivered the driver reports it
+// as transaction -2.
+func (w *vrWorld) classTx(b int) (*wire.MsgTx, [][]byte) {
+	tx := wire.NewMsgTx(2)
+	var prevs [][]byte
+	for n, in := range vrInputClasses(b) {
+		h := vrHash(fmt.Sprintf("class-in-%d-%d", b, n))
+		tx.AddTxIn(&wire.TxIn{
+			PreviousOutPoint: *wire.NewOutPoint(&h, uint32(n%3)),
+			SignatureScript:  in.sig,
+			Witness:          in.witness,
+			Sequence:         wire.MaxTxInSequenceNum,
+		})
+		prevs = append(prevs, in.prev)
+	}
+	tx.AddTxOut(wire.NewTxOut(1000, append([]byte{0x51, 0x20}, vrBytes(32, "out-tr", b)...)))
+	tx.AddTxOut(wire.NewTxOut(1000, append([]byte{0x00, 0x20}, vrBytes(32, "out-wsh", b)...)))
+	tx.AddTxOut(wire.NewTxOut(1000, vrCat([]byte{0x76, 0xa9, 0x14}, vrBytes(20, "out-pkh", b), []byte{0x88, 0xac})))
+	tx.AddTxOut(wire.NewTxOut(0, vrCat([]byte{0x6a}, vrPush(vrBytes(20, "out-ret", b)))))
+	return tx, prevs
 }
 
 func (w *vrWorld) idOf(h chainhash.Hash) int {
